@@ -20,7 +20,39 @@ TIERS = {"quick": {"worlds": 1500, "wall": 150, "limit": 90.0}, "thorough": {"wo
 GATES = ("nontrivial", "runs.with_veto", "runs.with_path", "runs.time_limited", "fired.total", "foreign.pairs")
 
 
+def _standstill_world(rng, seed, index):
+    """Accepted steps of exactly zero length: the variables are huge (2^36 .. 2^44, exact powers of two), the gradient
+    at the start is O(1) and the first step sizes are tiny (lamb_init 1e6 .. 1e11), so x - dx rounds back to x.  Such
+    steps are accepted, counted and announced like any other; the path must show them as (identical) columns and the
+    model time must advance by their dt.  No rows (the multipliers would move), no scaling surprises."""
+    import numpy as np
+
+    n = int(rng.integers(1, 4))
+    M = np.round(rng.normal(size=(n, n)), 2)
+    Q = np.round(M @ M.T + 0.5 * np.eye(n), 4) if rng.random() < 0.7 else np.zeros((n, n))
+    s = np.ldexp(rng.choice([-1.0, 1.0], size=n), rng.integers(36, 45, size=n))
+    g = np.round(rng.normal(size=n), 2) + 0.25
+    q = g - Q @ s
+    xl = np.full(n, -gen.INF)
+    xu = np.full(n, gen.INF)
+    for j in range(n):
+        t = int(rng.integers(0, 3))
+        if t == 1:
+            xl[j] = 0.0 if s[j] > 0 else s[j] * 2
+        elif t == 2:
+            xu[j] = s[j] * 2 if s[j] > 0 else 0.0
+    spec = dict(family="standstill", n=n, m=0, Q=Q, q=q, a=np.zeros(n), A=np.zeros((0, n)), B=np.zeros((0, n)), b=np.zeros(0), xl=xl, xu=xu, cl=np.zeros(0), cu=np.zeros(0), dom=None, expo=None, policy="fresh", fmt=str(rng.choice(["coo", "csr", "csc"])))
+    kw = {"collect_path": True, "obj_lower_limit": -1e300, "lamb_init": float(rng.choice([1e6, 1e9, 1e11])), "iteration_limit": int(rng.choice([7, 30, 120])), "display_interval": 1e18}
+    if rng.random() < 0.5:
+        kw["step_control_type"] = str(rng.choice(["ResiduumRatio", "DistanceRatio", "Fixed", "Exact"]))
+    if rng.random() < 0.3:
+        kw["penalty_update"] = str(rng.choice(["ObjectiveFilter", "LagrangianFilter", "DualNorm"]))
+    return gen.base_world(seed, ID, index, spec, s.copy(), np.zeros(0), kw, obs=gen.gen_obs(rng), case={"resolve": False, "faulted": False, "pts_seed": 0, "foreign": False})
+
+
 def generate(rng, seed, index, tier):
+    if rng.random() < 0.04:
+        return _standstill_world(rng, seed, index)
     fam = str(rng.choice(["qp", "nlp", "degenerate", "domain", "infeasible", "unbounded"], p=[0.3, 0.3, 0.1, 0.1, 0.1, 0.1]))
     spec, x0, y0 = gen.gen_problem(rng, fam)
     x0, y0, sform = gen.start_forms(rng, spec, x0, y0, p=0.1)
@@ -52,6 +84,8 @@ def _nontrivial(ex, bump):
         bump("runs.with_path")
     if ex.status == "TimeLimit":
         bump("runs.time_limited")
+    if any(t.accepted and t.out is not None and t.inp.x.tobytes() == t.out.x.tobytes() and t.inp.y.tobytes() == t.out.y.tobytes() for t in T):
+        bump("runs.with_zero_length_accepted_step")
     nt = len(T) >= 2 and any(t.accepted for t in T) and (veto or any(not t.accepted for t in T))
     if nt:
         bump("nontrivial")
